@@ -17,9 +17,12 @@ def trees_case(ctx, idx, rng):
     ntree = int(rng.integers(1, 5))
     trees, ref = [], {}
     shapes = []
+    zeros = False
     for _ in range(ntree):
         ist = int(rng.integers(0, L))
-        root, poly = gen.rand_tree(rng, L - ist, nops=int(rng.integers(1, 4)), pleaf=float(rng.choice([0.1, 0.3, 0.5])), maxch=int(rng.integers(1, 4)))
+        pz = float(rng.choice([0.0, 0.0, 0.25, 0.6]))
+        root, poly = gen.rand_tree(rng, L - ist, nops=int(rng.integers(1, 4)), pleaf=float(rng.choice([0.1, 0.3, 0.5])), maxch=int(rng.integers(1, 4)), pzero=pz)
+        zeros = zeros or pz > 0
         t = ptn.OpTree(root, ist)
         trees.append(t)
         lens = {len(w) for w in poly}
@@ -28,7 +31,7 @@ def trees_case(ctx, idx, rng):
             full = (0,) * ist + w + (0,) * (L - ist - len(w))
             ref[full] = ref.get(full, 0) + c
     ref = refs.poly_clean(ref)
-    ctx.case(('trees', f'L{min(L, 4)}', f'n{ntree}') + tuple(sorted(set(shapes))), sample={'L': L, 'trees': [(t.istart, tree_dump(t.root)) for t in trees][:2]},
+    ctx.case(('trees', f'L{min(L, 4)}', f'n{ntree}', 'zero-couplings' if zeros else 'nonzero-couplings') + tuple(sorted(set(shapes))), sample={'L': L, 'trees': [(t.istart, tree_dump(t.root)) for t in trees][:2]},
              info={'L': L, 'trees': [(t.istart, tree_dump(t.root)) for t in trees]})
     detail = ctx.cur_info
     dg = monitor.digest([(t.istart, tree_dump(t.root)) for t in trees])
@@ -113,7 +116,7 @@ def automaton_case(ctx, idx, rng):
 
     def add_edge(a, b, forced=None):
         kind = int(rng.integers(0, 4)) if forced is None else forced
-        base = [(int(rng.integers(0, 3)), float(rng.choice([-1, .5, 1, 2])))]
+        base = [(int(rng.integers(0, 3)), float(rng.choice([-1, .5, 1, 2, 0.0]) if forced is None else rng.choice([-1, .5, 1, 2])))]
         if rng.random() < 0.25:
             base.append((int(rng.integers(0, 3)), float(rng.choice([-1, .5, 1, 2]))))
         if kind == 0:
@@ -194,7 +197,7 @@ def automaton_case(ctx, idx, rng):
 
 SPEC = {
     'id': 'C17',
-    'rule': ('trees: 1..4 trees per list, any branching (1..3 children), leaves at different depths (ragged), leaf exactly on the terminal, shared '
+    'rule': ('trees: 1..4 trees per list, any branching (1..3 children), exactly-zero couplings (also on every child of an inner node), leaves at different depths (ragged), leaf exactly on the terminal, shared '
              'operator ids, start sites 0..L-1, L 1..7; automata: 2..6 states, self loops, parallel edges, dead states, identical terminals, edges '
              'with site-dependent active() and opics() callables, a planted path of the requested length (path-free automata are filtered by the '
              'own path count and counted); dense meanings of chains, trees and graphs (both directions) against the polynomial under random '
